@@ -1,5 +1,5 @@
 (* fs.ml — C13 model driver. Differential lines (reset/up/fetch/discard) are answered by the
-   extracted model; trace lines (tr/raw, produced by checks/c13.py from strace output) are
+   extracted model; trace lines (tr/trf/raw, produced by checks/c13.py from strace output) are
    answered with the model's predicted system-call trace, the model's rendering of the observed
    trace, and the verdict of the extracted crash monitor check_op on the observed trace. *)
 let rec nat_of_int n = if n <= 0 then O else S (nat_of_int (n - 1))
@@ -47,6 +47,7 @@ let sys_of_tokens toks data =
     | ["open"; p; f] -> Some (SOpenRead (path_of_hex p, fd f))
     | ["read"; f; n] -> Some (SRead (fd f, nat_of_int (int_of_string n)))
     | ["setflags"; f; i] -> Some (SSetFlags (fd f, i = "1"))
+    | ["wfail"; _; _] -> None      (* a write(2) that returned -1: no effect on the state *)
     | _ -> failwith ("bad token " ^ tok)) toks
 
 let rec last_l = function [x] -> x | _ :: r -> last_l r | [] -> []
@@ -116,6 +117,28 @@ let () =
               let old = spec_get !sp p in
               let n = spec_set !sp p (old @ [None]) in (n, n)
             | _ -> (!sp, !sp)) in
+         monitor obs during after;
+         sp := after
+       | "trf", [key; data; imm; limit; cls; toks] ->
+         (* an upload executed with a write fault after `limit` bytes (FS/Fault.v) *)
+         let toks = String.split_on_char ';' toks in
+         let k = unhex key in
+         let d = data_of_spec data in
+         let p = key_path k in
+         let b = (match p with Some p -> base p | None -> []) in
+         let sfx = suffix_of toks b in
+         let pred = trace_up_fault !st k d (imm = "1") sfx O (nat_of_int (int_of_string limit)) in
+         let obs = sys_of_tokens toks d in
+         out "pred" [string_of_int !idx] (string_of_bytes (render !st pred));
+         out "obsr" [string_of_int !idx] (string_of_bytes (render !st obs));
+         let during, after =
+           (match p with
+            | Some p when cls = "ok" ->
+              let old = spec_get !sp p in
+              (spec_set !sp p (old @ [Some d]), spec_set !sp p [Some d])
+            | Some p ->        (* the upload failed: what was under the key stays, at every crash point *)
+              let n = spec_set !sp p (spec_get !sp p) in (n, n)
+            | None -> (!sp, !sp)) in
          monitor obs during after;
          sp := after
        | "raw", [toks] ->
